@@ -268,6 +268,8 @@ JUNK = ['', ' ', ':', ';', '1::2', '1:2;3', ':1', '1:', 'abc', '1e3', 'nan', 'in
         '١٢:٣٠', '５', '-5', '-1:30', '1:-30', '+5', '1:2:3:4', '1;2;3;4', '1:2.5:3', ' 1:2 ', '1 :2',
         '1:2\n', '\n', '1\x00', '1.2.3', '1,5', '1:2,5', '9' * 400, '9' * 5000, '1:' + '9' * 5000, '1.5e400', '1e-400', 'None',
         '1' + '0' * 400 + ':0.5', '9' * 310 + ';1.5', '2.5:' + '9' * 400, '1' + '0' * 309 + ':0:0.1', '9' * 4000 + ':0.5', 'True', '1:1:1e2', '0b1', '1j', '\t7', '7\t:8', '1:.', '.', '..', '1:.:2', '²', '①', '1 2', '5;', ';5']
+# more fields than the interpreter's recursion limit / than any clock has
+JUNK += [':'.join(['0'] * 1500), ';'.join(['1'] * 3000), '0:' * 20000 + '1', ':' * 5000, '1;2;3;4;5', '0.5:' * 1200 + '1']
 
 
 def parse_work(mon, ctx, spec, rnd):
